@@ -118,7 +118,7 @@ fn json_mutations(root: &J) -> Vec<(String, J)> {
 }
 
 fn blueprint_part(run: &mut Run, tier: Tier) {
-    let initial = match crate::c18::build_initial() {
+    let initial = match crate::c18::build_initial_small() {
         Ok(j) => j,
         Err(e) => {
             run.machinery_error(format!("the purpose-built project does not build: {e}"));
@@ -152,7 +152,7 @@ fn blueprint_part(run: &mut Run, tier: Tier) {
             Ok(Ok(b)) => b,
         };
         accepted += 1;
-        for v in crate::c18::validators() {
+        for v in crate::c18::validators().into_iter().filter(|v| v.module == "va" || v.module == "vb") {
             for d in &params {
                 let pd = rterm::to_impl_data(d);
                 let mut b2 = match parse_blueprint(&text) {
